@@ -37,6 +37,7 @@ fn main() {
         "pipes" => pipes::main(),
         "channel-table" => channel::table_main(),
         "channel-stress" => channel::stress_main(),
+        "channel-long" => channel::long_main(),
         _ => {
             eprintln!("usage: harness <registry>");
             2
